@@ -661,6 +661,68 @@ func (w *world) sweep(t *rapid.T) {
 			}
 			w.versionsAgree(q.method+" "+what, rs, vs)
 		}
+		// v0.10 only: getStorageAt with INCLUDE_LAST_UPDATE_BLOCK. The last update of (addr,key) as of block b is bounded by
+		// the chain: not before the last block <= b whose diff really changes the slot, and it is a block <= b whose diff
+		// mentions the slot (or 0 when none does). No-op writes (same value, zero to a never-written slot) may or may not
+		// count as updates, so only these bounds are asserted.
+		if id.blk != nil {
+			if ct := st.Contracts[addr]; ct != nil {
+				lastReal, mentioned := uint64(0), map[uint64]bool{}
+				hasReal := false
+				for _, b := range w.chain {
+					if b.Num() > id.blk.Num() {
+						break
+					}
+					v, ok := b.SU.StateDiff.StorageDiffs[addr][key]
+					if !ok {
+						continue
+					}
+					mentioned[b.Num()] = true
+					var prev felt.Felt
+					if pc := b.Pre.Contracts[addr]; pc != nil {
+						prev = pc.Storage[key]
+					}
+					if !v.Equal(&prev) {
+						lastReal, hasReal = b.Num(), true
+					}
+				}
+				for _, e := range w.eps {
+					if e.version != "v0_10" || ver(e.version) < id.minV {
+						continue
+					}
+					r := e.call(c, "starknet_getStorageAt", addr.String(), key.String(), id.id, []string{"INCLUDE_LAST_UPDATE_BLOCK"})
+					where := fmt.Sprintf("%s starknet_getStorageAt(%s, %s, %v, [INCLUDE_LAST_UPDATE_BLOCK])", e.version, addr.ShortString(), key.ShortString(), id.id)
+					m, _ := r.Result.(map[string]any)
+					if r.Error != nil || m == nil {
+						c.Violation("storage-at", "%s: %s (the contract exists at that block)", where, trunc(r.raw))
+					}
+					want := ct.Storage[key]
+					if !feltIs(m["value"], &want) {
+						c.Violation("storage-at", "%s: value %v, state at that block has %s", where, m["value"], want.String())
+					}
+					lub, ok := m["last_update_block"].(json.Number)
+					n, perr := lub.Int64()
+					if !ok || perr != nil || n < 0 {
+						c.Violation("storage-last-update", "%s: last_update_block %v is not a block number", where, m["last_update_block"])
+					}
+					got := uint64(n)
+					switch {
+					case got > id.blk.Num():
+						c.Violation("storage-last-update", "%s: last_update_block %d is after the queried block %d", where, got, id.blk.Num())
+					case hasReal && got < lastReal:
+						c.Violation("storage-last-update", "%s: last_update_block %d, but block %d (<= queried block %d) changes the slot", where, got, lastReal, id.blk.Num())
+					case got != 0 && !mentioned[got]:
+						c.Violation("storage-last-update", "%s: last_update_block %d, but the diff of that block does not touch the slot (blocks that do: %v)", where, got, mentioned)
+					case got == 0 && hasReal && lastReal != 0:
+						c.Violation("storage-last-update", "%s: last_update_block 0, but block %d changes the slot", where, lastReal)
+					}
+					if hasReal && want.IsZero() {
+						c.Label("last-update-of-cleared-slot")
+					}
+					c.Label("storage-last-update-read")
+				}
+			}
+		}
 		// classes
 		cl := rapid.SampledFrom(w.u.Sierra).Draw(t, "qclass")
 		rs, vs = nil, nil
